@@ -4,7 +4,7 @@
 # Exit 2 on any build trouble (never a VIOLATION).
 set -u
 VERIF=$(cd "$(dirname "$0")/.." && pwd)
-REPO=${DSIM_REPO:-/repo}
+REPO=${DSIM_REPO:-${VP_RUN_REPO:-/repo}}
 MODE=${1:-plain}
 export GOFLAGS=-mod=mod GOPROXY=off GOSUMDB=off GOTOOLCHAIN=local GOWORK=off
 GO=go1.26.8
